@@ -50,10 +50,16 @@ def frl(v):
 
 
 def norm2(v):
+    # scaled: the square of a representable entry (|t| > 1e154) must not turn an exact residual
+    # into inf (thorough tier, trajectories that blow up)
+    v = list(v)
     try:
-        return math.sqrt(sum(float(t) ** 2 for t in v))
+        m = max([abs(float(t)) for t in v] + [0.0])
     except OverflowError:
         return math.inf
+    if m == 0.0 or math.isinf(m) or math.isnan(m):
+        return m
+    return m * math.sqrt(sum((float(t) / m) ** 2 for t in v))
 
 
 def all_finite(obj):
@@ -1339,7 +1345,9 @@ def check_trace_property(c, r, methods, stats):
         return ('solutions', 'the returned states are not x0 followed by the accepted x_new of every step')
     if len(r['times']) != len(r['sols']):
         return ('one-state-per-time', '%d states for %d times' % (len(r['sols']), len(r['times'])))
-    if not adaptive and len(atts) < 3:
+    if not adaptive and len(atts) < 3 and not (atts and atts[-1]['status'] != 'Ok'):
+        # (a run that ends early because Newton's method did not converge returns the prefix so far:
+        #  times t0 + k tau, one state per time -- nothing the property excludes)
         return ('too-few-steps', 'constant-step run made %d steps' % len(atts))
     return None
 
